@@ -6,6 +6,7 @@ import "verif/harness/vk"
 func All() []*vk.Check {
 	return []*vk.Check{
 		C09(),
+		C13(),
 		C14(),
 		C15(),
 		C16(),
